@@ -828,11 +828,85 @@ theorem C03_pi_grad_branches_differ :
   intro am ph
   constructor
   · simp only [piGradNoExpand, Bool.false_eq_true, if_false, mixingTerm_add_eq, mixingTerm_sub_eq]
-    simp [am, ph, csigmoid, Density.piArgRe, Density.piArgIm, PRBM.preactA, sumFin_eq, C.div, C.mul, C.conj, C.add,
+    simp [am, ph, C.csigmoidH_eq, csigmoid, Density.piArgRe, Density.piArgIm, PRBM.preactA, sumFin_eq, C.div, C.mul, C.conj, C.add,
       C.one, C.normSq]
     norm_num
-  · simp [piGrad, am, ph, csigmoid, Density.piArgRe, Density.piArgIm, PRBM.preactA, sumFin_eq, C.div, C.mul, C.conj,
+  · simp [piGrad, am, ph, C.csigmoidH_eq, csigmoid, Density.piArgRe, Density.piArgIm, PRBM.preactA, sumFin_eq, C.div, C.mul, C.conj,
       C.add, C.one, C.normSq]
+
+/-! ### Extension round (package X2): the complex arithmetic of the gradient model is the kernel AS CODED AT /repo HEAD
+
+`cplxRotComp` calls `C.invH` (`cplx.inverse` after fix F17: operand scaled by its larger component) and `piGrad` /
+`piGradNoExpand` call `C.csigmoidH` (`cplx.sigmoid` after F17: `1/(1+e^{-z})` in the right half plane, `e^z/(1+e^z)` in the
+left one) — the SAME scalar functions the C15 tensor model applies entrywise (`C15_inverse_entry`, `C15_sigmoid_entry`).
+All derivative theorems above are therefore statements about the formulas the code executes; they go through the equalities
+`C15_invH_eq` (guard `Upsi ≠ 0`, which the theorems carry anyway) and `C15_csigmoidH_eq` (unconditional).  The two theorems
+below state what that means for the gradient components. -/
+
+/-- **C03.9a (rotated gradient of the complex state, HEAD's inverse)**: wherever the rotated amplitude `Upsi` is non-zero, the
+component the model computes with the scaled inverse is the textbook `Re[Upsi⁻¹ · Σ_τ Upsi_v[τ] · g'(τ)]` — first as the
+pair formula with `C.inv = conj z / |z|²` (the code before F17), then in ℂ. -/
+theorem C03_rot_comp_textbook (am ph : RBM ℝ n h) (dict : Char → M2 ℝ) (smp : Sample n) (isPhase : Bool)
+    (g : (Fin n → Bool) → ℝ) (hU : toC (cplxUpsi am ph dict smp) ≠ 0) :
+    cplxRotComp am ph dict smp isPhase g
+      = (C.mul (C.inv (cplxUpsi am ph dict smp)) (C.sum (2 ^ n) (fun k =>
+          C.mul (cplxCoef am ph dict smp (rowBits n k.val))
+            (if isPhase then (0, g (rowBits n k.val)) else (g (rowBits n k.val), 0))))).1
+    ∧ cplxRotComp am ph dict smp isPhase g
+      = ((toC (cplxUpsi am ph dict smp))⁻¹ * ∑ k : Fin (2 ^ n), toC (cplxCoef am ph dict smp (rowBits n k.val))
+          * (if isPhase then (g (rowBits n k.val) : ℂ) * Complex.I else (g (rowBits n k.val) : ℂ))).re := by
+  have h1 : cplxRotComp am ph dict smp isPhase g
+      = (C.mul (C.inv (cplxUpsi am ph dict smp)) (C.sum (2 ^ n) (fun k =>
+          C.mul (cplxCoef am ph dict smp (rowBits n k.val))
+            (if isPhase then (0, g (rowBits n k.val)) else (g (rowBits n k.val), 0))))).1 := by
+    unfold cplxRotComp
+    rw [C.invH_eq _ ((C.ne_zero_iff _).2 hU)]
+    rfl
+  refine ⟨h1, ?_⟩
+  rw [h1, ← toC_re, toC_mul, toC_inv _ hU, toC_sum]
+  refine congrArg Complex.re (congrArg _ (Finset.sum_congr rfl (fun k _ => ?_)))
+  have e1 : ∀ x : ℝ, toC (x, 0) = (x : ℂ) := fun x => by apply Complex.ext <;> simp
+  have e2 : ∀ x : ℝ, toC (0, x) = (x : ℂ) * Complex.I := fun x => by apply Complex.ext <;> simp
+  rw [toC_mul]
+  cases isPhase
+  · simp only [Bool.false_eq_true, if_false, e1]
+  · simp only [if_true, e2]
+
+/-- **C03.9b (`pi_grad`, HEAD's sigmoid)**: the complex sigmoid inside `pi_grad` — computed in the overflow-free branch form —
+is the textbook `e^z/(1+e^z)` pair formula for EVERY argument: the aux-bias entry of `pi_grad(phase=False)` is that number,
+the `U` entries are `½ · s'_k · (v_j ± v'_j)` with `s' = s` resp. `s · i`; under the guard of the mixed-state theorems
+(`1 + e^{z_k} ≠ 0`) it decodes to the complex logistic function of `z_k`. -/
+theorem C03_pi_grad_sigmoid (am ph : PRBM ℝ n h a) (v vp : Fin n → ℝ) (k : Fin a) :
+    ((piGrad am ph false v vp).1.d k, (piGrad am ph false v vp).2.d k)
+        = csigmoid (Density.piArgRe am v vp k) (Density.piArgIm ph v vp k)
+    ∧ (∀ (phase : Bool) (j : Fin n),
+        ((piGrad am ph phase v vp).1.U k j, (piGrad am ph phase v vp).2.U k j)
+          = C.smul (1 / 2 * (if phase then v j - vp j else v j + vp j))
+              (if phase then C.mul (csigmoid (Density.piArgRe am v vp k) (Density.piArgIm ph v vp k)) C.I
+               else csigmoid (Density.piArgRe am v vp k) (Density.piArgIm ph v vp k)))
+    ∧ ((1 : ℂ) + Complex.exp (zArg am ph v vp k) ≠ 0 →
+        toC ((piGrad am ph false v vp).1.d k, (piGrad am ph false v vp).2.d k) = sigC (zArg am ph v vp k)) := by
+  have h1 : ((piGrad am ph false v vp).1.d k, (piGrad am ph false v vp).2.d k)
+        = csigmoid (Density.piArgRe am v vp k) (Density.piArgIm ph v vp k) := by
+    simp only [piGrad, C.csigmoidH_eq, Bool.false_eq_true, if_false]
+  refine ⟨h1, fun phase j => ?_, fun hz => ?_⟩
+  · cases phase
+    · simp only [piGrad, C.csigmoidH_eq, C.smul, two_eq, Bool.false_eq_true, if_false]
+      apply Prod.ext <;> simp only <;> ring
+    · simp only [piGrad, C.csigmoidH_eq, C.smul, two_eq, if_true]
+      apply Prod.ext <;> simp only <;> ring
+  · rw [h1]; exact toC_csigmoid _ _ hz
+
+/-- the guard of `C03_rot_comp_textbook` (and of the complex-state theorems) is met by every reference-basis sample of every
+network (`Upsi = ψ(σ) = e^{…} ≠ 0`), all sizes and parameters -/
+example (am ph : RBM ℝ n h) (dict : Char → M2 ℝ) (smp : Sample n) (hz : smp.allZ = true) :
+    toC (cplxUpsi am ph dict smp) ≠ 0 := by
+  rw [cplxUpsi_allZ _ _ _ _ hz, toC_psiCplx]; exact Complex.exp_ne_zero _
+
+/-- … and the scalar equality it rests on, at a concrete non-zero number -/
+example : ((3, -4) : C ℝ) ≠ (0, 0) ∧ C.invH ((3, -4) : C ℝ) = C.inv (3, -4) := by
+  have h : ((3, -4) : C ℝ) ≠ (0, 0) := by intro h; have := congrArg Prod.fst h; norm_num at this
+  exact ⟨h, C.invH_eq _ h⟩
 
 /-! ### non-vacuity of the hypotheses used above -/
 
